@@ -564,6 +564,32 @@ func (c20) Case(c *core.Ctx) {
 			return true
 		}, func(error) bool { gotJ = append(gotJ, "ERR"); return false })
 		cmp("x2j-wrapper.XmlMsgsFromReaderAsJson", e == nil && strings.Join(gotJ, "|") == strings.Join(want, "|"), core.D{"stream": string(stream), "observed": fmt.Sprint(gotJ), "expected": fmt.Sprint(want)})
+		if r.Intn(4) == 0 {
+			// an ill-formed message in the middle, the error handler says "go on": what is delivered afterwards is decoded
+			// as before (no recast was asked for: every leaf is a string)
+			bad := append(append(append([]byte{}, docs[0]...), []byte("<bad><x></bad>")...), []byte("<n><v>12</v><w>true</w><f>1.5</f></n>")...)
+			allStrings := true
+			var walk func(v interface{})
+			walk = func(v interface{}) {
+				switch t := v.(type) {
+				case map[string]interface{}:
+					for _, e := range t {
+						walk(e)
+					}
+				case []interface{}:
+					for _, e := range t {
+						walk(e)
+					}
+				case string:
+				default:
+					allStrings = false
+				}
+			}
+			nmsg, nerr := 0, 0
+			e := x2jw.XmlMsgsFromReader(plainReader{bytes.NewReader(bad)}, func(m map[string]interface{}) bool { nmsg++; walk(m); return true }, func(error) bool { nerr++; return nerr < 20 })
+			cmp("x2j-wrapper.XmlMsgsFromReader (after an ill-formed message)", allStrings && nerr > 0 && nmsg >= 1, core.D{"stream": string(bad), "messages": nmsg, "errors": nerr, "all_leaves_strings": allStrings, "err": fmt.Sprint(e)})
+			c.Count("bulk:resumed-after-ill-formed-message")
+		}
 		dir := c19scratch()
 		fn := filepath.Join(dir, "c20.xml")
 		os.WriteFile(fn, stream, 0o644)
